@@ -57,12 +57,27 @@ RefusalStatus(callIdx, sameErr) == IF sameErr THEN 403 ELSE IF callIdx % 2 = 1 T
 
 --------------------------------------------------------------------------
 (* machine state *)
-Start == [pc |-> "auth", alt |-> 1, calls |-> 0, k |-> 1, auth |-> <<>>, args |-> <<>>, lastStatus |-> 0, outcome |-> "running", status |-> 0]
+Start == [pc |-> "auth", alt |-> 1, calls |-> 0, k |-> 1, auth |-> <<>>, args |-> <<>>, lastStatus |-> 0, outcome |-> "running", status |-> 0, mw |-> <<>>]
+
+\* User middlewares.  The application registers, per stage, a list of middlewares (here two each: <stage>#1, <stage>#2); the handler
+\* runs the list of a stage in registration order and stops - writing nothing more itself - as soon as one answers "do not continue"
+\* (the scripted one, opts.stopAt, which answers 418 itself).  Stages: onInput (a parameter is missing / ill-typed / fails its
+\* validator, before the 422 is written), before (all parameters parsed, before the controller), onError (the controller returned an
+\* error), onOutput (the returned value does not pass validateResponsePayload), after (success, before the reply is written).
+\* Nothing runs before the authorization gate has approved, nor after a refusal.
+StopAtOf(o) == IF "stopAt" \in DOMAIN o THEN o.stopAt ELSE ""
+MwNames(stage) == <<stage \o "#1", stage \o "#2">>
+\* the middlewares of a stage that run, and whether the operation continues after them
+MwRun(stage, o) == IF MwNames(stage)[1] = StopAtOf(o) THEN <<MwNames(stage)[1]>> ELSE MwNames(stage)
+MwStops(stage, o) == StopAtOf(o) \in {MwNames(stage)[1], MwNames(stage)[2]}
+Stopped(s, stage, o) == [s EXCEPT !.pc = "done", !.outcome = "stopped", !.status = 418, !.mw = s.mw \o MwRun(stage, o)]
 
 Decision(script, n) == IF n <= Len(script) THEN script[n] ELSE TRUE
 
 RespCheckOf(hd) == IF "respCheck" \in DOMAIN hd THEN hd.respCheck ELSE "valid"
-\* opts = [fail : BOOLEAN, sameErr : BOOLEAN, status : Nat]  (status # 0: the controller calls SetStatus(status) before returning)
+Reject422(s, o) == IF MwStops("onInput", o) THEN [Stopped(s, "onInput", o) EXCEPT !.outcome = "rejected-stopped"]
+                   ELSE [s EXCEPT !.pc = "done", !.outcome = "rejected", !.status = 422, !.mw = s.mw \o MwRun("onInput", o)]
+\* opts = [fail : BOOLEAN, sameErr : BOOLEAN, status : Nat, stopAt : STRING]  (status # 0: the controller calls SetStatus(status) before returning)
 Step(h, req, script, opts, s) ==
     CASE s.pc = "auth" ->
             IF s.alt > Len(h.alts) THEN [s EXCEPT !.pc = IF h.alts = <<>> THEN "parse" ELSE "refused"]
@@ -79,38 +94,49 @@ Step(h, req, script, opts, s) ==
                      tok == req.toks[s.k]
                  IN  IF p.in = "ctx" THEN [s EXCEPT !.k = @ + 1, !.args = Append(@, "ctx")]
                      ELSE IF tok = ABSENT
-                          THEN IF p.required THEN [s EXCEPT !.pc = "done", !.outcome = "rejected", !.status = 422]
+                          THEN IF p.required THEN Reject422(s, opts)
                                ELSE [s EXCEPT !.k = @ + 1, !.args = Append(@, "null")]
-                     ELSE IF ~TokOf(p.type, tok).fits THEN [s EXCEPT !.pc = "done", !.outcome = "rejected", !.status = 422]
+                     ELSE IF ~TokOf(p.type, tok).fits THEN Reject422(s, opts)
                      ELSE [s EXCEPT !.k = @ + 1, !.args = Append(@, TokOf(p.type, tok).canon)]
       [] s.pc = "invoke" ->
-            \* an operation error is answered first (500, or the status the controller set); otherwise the value is validated when
-            \* validateResponsePayload asks for it (respCheck = "invalid": the controller's zero value does not pass -> 500, whatever
-            \* status the controller set); otherwise the controller's status, else 200 / 204
-            [s EXCEPT !.pc = "done", !.outcome = "invoked",
-                      !.status = IF opts.fail THEN (IF opts.status # 0 THEN opts.status ELSE 500)
-                                 ELSE IF RespCheckOf(h) = "invalid" THEN 500
-                                 ELSE IF opts.status # 0 THEN opts.status ELSE IF h.returnsValue THEN 200 ELSE 204]
+            \* before-middlewares, then the controller; an operation error is answered first (500, or the status the controller set) after
+            \* the onError middlewares; otherwise the value is validated when validateResponsePayload asks for it (respCheck = "invalid":
+            \* the controller's zero value does not pass -> onOutput middlewares, 500); otherwise the after-middlewares and the
+            \* controller's status, else 200 / 204
+            IF MwStops("before", opts) THEN Stopped(s, "before", opts)
+            ELSE LET s1 == [s EXCEPT !.mw = s.mw \o MwRun("before", opts), !.outcome = "invoked"] IN
+                 IF opts.fail THEN
+                      IF MwStops("onError", opts) THEN [Stopped(s1, "onError", opts) EXCEPT !.outcome = "invoked"]
+                      ELSE [s1 EXCEPT !.pc = "done", !.mw = s1.mw \o MwRun("onError", opts), !.status = IF opts.status # 0 THEN opts.status ELSE 500]
+                 ELSE IF RespCheckOf(h) = "invalid" THEN
+                      IF MwStops("onOutput", opts) THEN [Stopped(s1, "onOutput", opts) EXCEPT !.outcome = "invoked"]
+                      ELSE [s1 EXCEPT !.pc = "done", !.mw = s1.mw \o MwRun("onOutput", opts), !.status = 500]
+                 ELSE IF MwStops("after", opts) THEN [Stopped(s1, "after", opts) EXCEPT !.outcome = "invoked"]
+                 ELSE [s1 EXCEPT !.pc = "done", !.mw = s1.mw \o MwRun("after", opts),
+                                 !.status = IF opts.status # 0 THEN opts.status ELSE IF h.returnsValue THEN 200 ELSE 204]
       [] OTHER -> s
 
 RECURSIVE RunFrom(_, _, _, _, _)
 RunFrom(h, req, script, opts, s) == IF s.pc = "done" THEN s ELSE RunFrom(h, req, script, opts, Step(h, req, script, opts, s))
 RunOf(h, req, script, opts) == RunFrom(h, req, script, opts, Start)
-NoOpts == [fail |-> FALSE, sameErr |-> FALSE, status |-> 0]
+NoOpts == [fail |-> FALSE, sameErr |-> FALSE, status |-> 0, stopAt |-> ""]
 
 --------------------------------------------------------------------------
 (* the step machine as a behaviour, for model checking on a small universe *)
 CONSTANTS HandlerChoices, ScriptChoices
-VARIABLES h, req, script, st
-rvars == <<h, req, script, st>>
+VARIABLES h, req, script, st, ropts
+rvars == <<h, req, script, st, ropts>>
+O(f, st0, stop) == [fail |-> f, sameErr |-> FALSE, status |-> st0, stopAt |-> stop]
+OptChoices == { NoOpts, O(TRUE, 0, ""), O(FALSE, 201, ""), O(TRUE, 503, ""), O(FALSE, 0, "before#1"), O(FALSE, 0, "before#2"), O(FALSE, 0, "after#2"),
+                O(TRUE, 0, "onError#1"), O(FALSE, 0, "onInput#2"), O(FALSE, 0, "onOutput#1") }
 
 ReqsFor(hd) == LET choices(p) == IF p.in = "ctx" THEN {ABSENT}
                                  ELSE {x.id : x \in {t \in Tokens : t.ty = BaseType(p.type)}} \cup (IF p.in = "path" THEN {} ELSE {ABSENT})
                IN  {r \in [DOMAIN hd.params -> UNION {choices(hd.params[i]) : i \in DOMAIN hd.params}] : \A i \in DOMAIN hd.params : r[i] \in choices(hd.params[i])}
 
-RInit == /\ h \in HandlerChoices /\ script \in ScriptChoices /\ st = Start
+RInit == /\ h \in HandlerChoices /\ script \in ScriptChoices /\ st = Start /\ ropts \in OptChoices
          /\ req \in {[toks |-> r] : r \in ReqsFor(h)}
-RNext == st.pc # "done" /\ st' = Step(h, req, script, NoOpts, st) /\ UNCHANGED <<h, req, script>>
+RNext == st.pc # "done" /\ st' = Step(h, req, script, ropts, st) /\ UNCHANGED <<h, req, script, ropts>>
 RSpec == RInit /\ [][RNext]_rvars /\ WF_rvars(RNext)
 
 Approved(a) == \E i \in DOMAIN a : a[i].ok
@@ -118,11 +144,19 @@ Approved(a) == \E i \in DOMAIN a : a[i].ok
 \*      arguments are parsed only after the gate; when every alternative refuses nothing is invoked and the status is the last refusal's
 C03_Gate    == st.outcome = "invoked" => (h.alts = <<>> \/ Approved(st.auth))
 C03_Order   == st.args # <<>> => (h.alts = <<>> \/ Approved(st.auth))
-C03_Refused == st.outcome = "refused" => (~Approved(st.auth) /\ Len(st.auth) = Len(h.alts) /\ st.status = RefusalStatus(Len(st.auth), FALSE) /\ st.args = <<>>)
+C03_Refused == st.outcome = "refused" => (~Approved(st.auth) /\ Len(st.auth) = Len(h.alts) /\ st.status = RefusalStatus(Len(st.auth), FALSE) /\ st.args = <<>> /\ st.mw = <<>>)
+\* middleware stages: a stop is final (418, nothing after it), the controller runs only after the before-stage completed,
+\* success and error stages exclude each other
+MwSet == {st.mw[i] : i \in DOMAIN st.mw}
+C12_MwStages == /\ (st.pc = "done" /\ ropts.stopAt \in MwSet) => (st.status = 418 /\ st.mw[Len(st.mw)] = ropts.stopAt)
+                /\ (st.outcome = "invoked") => ({"before#1", "before#2"} \subseteq MwSet)
+                /\ ~({"after#1", "onError#1"} \subseteq MwSet) /\ ~({"after#1", "onOutput#1"} \subseteq MwSet) /\ ~({"onInput#1", "before#1"} \subseteq MwSet)
 \* alternatives are tried in order, each at most once, stopping at the first approval
 C03_InOrder == \A i \in DOMAIN st.auth : st.auth[i].scheme = h.alts[i].scheme /\ st.auth[i].scopes = h.alts[i].scopes
                                           /\ (i < Len(st.auth) => ~st.auth[i].ok)
 C05_Reject  == st.outcome = "rejected" => st.status = 422
 C05_Args    == st.outcome = "invoked" => Len(st.args) = Len(h.params)
 C14_Done    == <>(st.pc = "done")
+\* no user middleware runs unless the gate approved (or the route has no security), and none after a refusal
+C03_MwAfterGate == st.mw # <<>> => (h.alts = <<>> \/ Approved(st.auth))
 =============================================================================
